@@ -1161,3 +1161,51 @@ func r1510(c *Ctx, r *R) {
 	}
 	_ = n
 }
+
+func init() {
+	register(&Rule{ID: "R15.11", Props: []string{"C15"}, Floor: 24, Title: "environment overrides start from the current configuration: ApplyEnvVars feeds envconfig the JSON form of the configuration as it is (not a fresh, empty one) and applies exactly that value back", Run: r1511})
+}
+
+func r1511(c *Ctx, r *R) {
+	for _, cc := range c.componentConfigs(r) {
+		f := c.P.Func(cc.rel, cc.name+".ApplyEnvVars")
+		label := cc.rel + "." + cc.name
+		if f == nil || f.Blocks == nil {
+			continue
+		}
+		procs := findCalls(f, false, "envconfig.Process")
+		if len(procs) == 0 {
+			// nothing overridable (or delegated): not this rule's business
+			continue
+		}
+		for _, p := range procs {
+			target := callArgs(p.Common())[1]
+			if mi, ok := target.(*ssa.MakeInterface); ok {
+				target = mi.X
+			}
+			// (1) the target is the JSON form of the receiver
+			src, _ := originCall(target)
+			fromCfg := false
+			if src != nil {
+				if cal := src.Common().StaticCallee(); cal != nil && cal.Signature.Recv() != nil && len(src.Common().Args) > 0 && paramIndex(f, src.Common().Args[0]) == 0 {
+					fromCfg = true
+				}
+			}
+			r.Check(fromCfg, label+":from-current", p.Pos(), "envconfig overrides the JSON form of the current configuration", "ApplyEnvVars lets envconfig fill a JSON value that is not derived from the current configuration: every setting not present in the environment falls back to its zero/default value when applied (file values are lost)")
+			// (2) the same value is applied back and that result returned
+			applied := false
+			for _, lf := range returnLeaves(f, 0) {
+				call, _ := originCall(lf.Val)
+				if call == nil {
+					continue
+				}
+				for _, a := range call.Common().Args {
+					if strip(a) == strip(target) {
+						applied = true
+					}
+				}
+			}
+			r.Check(applied, label+":applied-back", p.Pos(), "the overridden JSON value is applied to the configuration and that result is returned", "ApplyEnvVars does not apply the value envconfig filled (or drops the result of applying it): environment overrides have no effect or their errors are lost")
+		}
+	}
+}
